@@ -34,6 +34,9 @@ structure S where
   mpSize : Nat := 4                     -- cache size of the pool in use (`MPOOL(name, type, size)`)
   mp : MPool.MP := MPool.init 4
   inUse : List Nat := []
+  /-- the other pools of the process (`mp_use`): cache size ↦ (pool, its objects in use).  The entry of the size in
+  use is not read (`S.pool`); a pool never taken is in its load-time state. -/
+  parked : Nat → MPool.MP × List Nat := fun k => (MPool.init k, [])
 
 /-- size of the objects the pool hands out -/
 def objSize : Nat := 40
@@ -128,11 +131,22 @@ def freeAll (s : S) : S :=
   let m := match s.sm with | some x => SeqMap.free x m | none => m
   { s with m := m, ea := none, eq := none, sm := none }
 
+/-- the pool of cache size `k` and its objects in use -/
+def S.pool (s : S) (k : Nat) : MPool.MP × List Nat := if k = s.mpSize then (s.mp, s.inUse) else s.parked k
+
+/-- the exit of one pool: its handler (`mpool_atexit`); the harness itself releases the objects still in use -/
+def exitOne (m : Mem) (pu : MPool.MP × List Nat) : Mem :=
+  pu.2.foldl (fun m _ => m.free false) (MPool.atexit pu.1 m).2
+
+/-- the sizes of the pools that are not the one in use -/
+def otherSizes (cur : Nat) : List Nat := poolSizes.filter (· != cur)
+
+/-- process exit for the pools (`mp_exit`, `end`, `mp_init`): the exit handler of **every** pool — the one in use and
+the parked ones — runs, the harness releases the objects still in use; every pool is in its load-time state again -/
 def poolExit (s : S) : S :=
-  let (_, m) := MPool.atexit s.mp s.m
-  -- the harness itself releases the objects still in use
-  let m := s.inUse.foldl (fun m _ => m.free false) m
-  { s with m := m, mp := MPool.init s.mpSize, inUse := [] }
+  let m := exitOne s.m (s.mp, s.inUse)
+  let m := (otherSizes s.mpSize).foldl (fun m k => exitOne m (s.parked k)) m
+  { s with m := m, mp := MPool.init s.mpSize, inUse := [], parked := fun k => (MPool.init k, []) }
 
 /-- an operation on the array, if there is one (else `skip`) and the record length is positive (else `bad`) -/
 def onEa (s : S) (reclen : Option Nat) (bad : Word) (k : EArray.EA → RecLen → S × Out) : S × Out :=
@@ -307,6 +321,12 @@ def stepOp (s : S) (op : Op) : S × Out :=
     if !poolSizes.contains size then (s, .word .badOp) else
     let s' := poolExit s
     ({ s' with mpSize := size, mp := MPool.init size }, .freed (l2c m s'.m))
+  | .mpUse size =>
+    -- switch the pool in use; no exit handling: the pool left stays alive (parked) with its cache and its objects
+    if !poolSizes.contains size then (s, .word .badOp) else
+    let parked' : Nat → MPool.MP × List Nat := fun j => if j = s.mpSize then (s.mp, s.inUse) else s.parked j
+    let s' := { s with mpSize := size, mp := (parked' size).1, inUse := (parked' size).2, parked := parked' }
+    (s', .mp 0 .none (mpL2 s'.mp m m))
   | .mpMalloc =>
     match MPool.malloc s.mp objSize m with
     | (some x, p', m') => ({ s with m := m', mp := p', inUse := x :: s.inUse }, .mp (rf m m') (.obj x) (mpL2 p' m m'))
